@@ -423,7 +423,8 @@ func RawDatagram(rng *rand.Rand, id []byte) []byte {
 var WireIPs = []string{"127.0.0.1", "127.9.9.9", "127.0.0.2", "127.1.2.3", "127.0.0.20"}
 
 // WireHistory: a history for RunWireHistory: sources are loopback addresses with bindable ports (one fixed port per
-// source and history, so that sockets are few), no empty datagrams (the socket layer drops them before the dispatcher).
+// source and history, so that sockets are few).  Empty datagrams stay in: the socket layer must drop them before the
+// dispatcher and go on reading.
 func WireHistory(rng *rand.Rand, n int, nIPs int, wildPct, rawPct int) []string {
 	perm := rng.Perm(len(WireIPs))
 	var ips []string
@@ -435,8 +436,8 @@ func WireHistory(rng *rand.Rand, n int, nIPs int, wildPct, rawPct int) []string 
 	var ops [][]string
 	for _, op := range SplitOps(History(rng, n, ips, wildPct, rawPct)) {
 		if len(op) == 4 && op[0] == "dg" {
-			if op[3] == "-" || op[3] == "" {
-				continue
+			if op[3] == "" {
+				op[3] = "-"
 			}
 			if _, ok := ports[op[1]]; !ok {
 				ports[op[1]] = base + len(ports)
@@ -448,4 +449,38 @@ func WireHistory(rng *rand.Rand, n int, nIPs int, wildPct, rawPct int) []string 
 		ops = append(ops, op)
 	}
 	return JoinOps(ops)
+}
+
+// WireEdgeHistories: deterministic histories around what the socket layer does before the dispatcher sees a datagram:
+// empty datagrams (dropped, and the server keeps serving: a heartbeat follows each), and well-formed heartbeats whose
+// length sits on and around the receive buffer's size (2048: one of exactly that size fits and must be handled like any
+// other; longer ones are cut).
+func WireEdgeHistories(rng *rand.Rand) [][]string {
+	var hs [][]string
+	id := []byte{0xde, 0xad, 0xbe, 0xef}
+	port := 20000 + rng.Intn(30000)
+	ip := WireIPs[rng.Intn(len(WireIPs))]
+	mk := func(total int) []byte {
+		r := RandomReport(rng, id, "10480", "10481", 0)
+		r.Over["hostname"] = []byte("x")
+		for try := 0; try < 4; try++ {
+			p := r.Payload(rng)
+			if len(p) == total {
+				return p
+			}
+			n := len(r.Over["hostname"]) + total - len(p)
+			if n < 1 {
+				n = 1
+			}
+			r.Over["hostname"] = []byte(strings.Repeat("y", n))
+		}
+		return r.Payload(rng)
+	}
+	plain := RandomReport(rng, id, "10480", "10481", 0)
+	hs = append(hs, JoinOps([][]string{Dg(ip, port, nil), Dg(ip, port, plain.Payload(rng)), Dg(ip, port, nil), Dg(ip, port, Keepalive(id)),
+		{"adv", "256000"}, Dg(ip, port, nil), Dg(ip, port, plain.Payload(rng))}))
+	for _, total := range []int{2046, 2047, 2048, 2049, 2050, 3000} {
+		hs = append(hs, JoinOps([][]string{Dg(ip, port, mk(total)), Dg(ip, port, Keepalive(id)), Dg(ip, port, plain.Payload(rng))}))
+	}
+	return hs
 }
